@@ -3,7 +3,7 @@ from props.C01 import PUSH_MODEL, FLOATS
 PROP = {
     "module": "Uec.Props.C02",
     "model_modules": ["Uec.Model.PushImpl", "Uec.Model.PushSpec", "Uec.Lemmas.PushRefine", "Uec.Lemmas.PushFacts", "Uec.Lemmas.PushWF"],
-    "families": ["push-instr"],
+    "families": ["push-instr", "push-run"],
     "trusted_base": [KERNEL, AXIOMS, TIE, RUST, HAND, PUSH_MODEL, FLOATS],
     "assumptions": ["states are within their stack limits (SizesOk): established by the builder and preserved by the interpreter (proved in C03); for over-full stacks, reachable only through Stack::set_max_stack_size on a loaded stack, Swap/with_replace can lose elements before a push fails"],
     "explanation": "Lean theorems about the code-shaped Impl: err_state_eq (every recoverable or fatal error of every instruction, block and input variable carries a state equal to the state before: all stacks, output, inputs, limits), fatal_is_overflow, underflow_recoverable, skip_is_noop / noop_step (after a recoverable error the loop continues exactly as after a Noop). Non-vacuity examples at the boundaries (one operand short, arithmetic fault, destination exactly full). Tie: exhaustive fault-point enumeration against the real code - every instruction x fill levels {0..3} x capacity {full, spare} per stack x boundary values, comparing the state carried by the real error with a clone of the input (PartialEq and canonical dump) and with the model.",
